@@ -133,6 +133,21 @@ class Check:
                 shutil.copy(os.path.join(REPO, f), os.path.join(sc, "reftable", f))
         for f in os.listdir(os.path.join(ROOT, "harness", "export")):
             shutil.copy(os.path.join(ROOT, "harness", "export", f), os.path.join(sc, "reftable", f))
+        # redirect the stack code's package-level fs calls to the shim (DESIGN.md 3.3)
+        rules = [("os.OpenFile", "vfsOpenFile"), ("os.Open", "vfsOpen"), ("os.Rename", "vfsRename"),
+                 ("os.Remove", "vfsRemove"), ("ioutil.ReadFile", "vfsReadFile"), ("ioutil.TempFile", "vfsTempFile"),
+                 ("ioutil.ReadDir", "vfsReadDir"), ("time.Now", "vfsNow")]
+        rw_ok = True
+        for fn in ("stack.go", "reftable.go"):
+            path = os.path.join(sc, "reftable", fn)
+            if not os.path.exists(path):
+                continue
+            for a, b in rules:
+                rc, out = sh(["gofmt", "-r", "%s -> %s" % (a, b), "-w", path], env=GOENV)
+                rw_ok = rw_ok and rc == 0
+            with open(path, "a") as f:
+                f.write("\nvar _ = ioutil.ReadFile\nvar _ = os.Remove\nvar _ = time.Now\n" if fn == "stack.go" else "\nvar _ = os.Remove\n")
+        self.rewrite_ok = rw_ok
         shutil.copytree(os.path.join(ROOT, "harness"), os.path.join(sc, "harness"),
                         ignore=shutil.ignore_patterns("export", "bin", "cdriver"))
         rc, out = sh("go build -tags 'verif %s' -o h ." % extra_tags, cwd=os.path.join(sc, "harness"),
@@ -177,7 +192,7 @@ class Check:
             return None
         with open(cases_path, "rb") as f:
             env = dict(os.environ, VERIF_ZLIBD=os.path.join(self.scratch, "harness", "h") + " -zlibd")
-            p = subprocess.run([DRIVER], stdin=f, stdout=subprocess.PIPE, stderr=subprocess.PIPE, timeout=timeout, env=env)
+            p = subprocess.run(["bash", "-c", "ulimit -s unlimited 2>/dev/null || ulimit -s 4000000 2>/dev/null; exec " + DRIVER], stdin=f, stdout=subprocess.PIPE, stderr=subprocess.PIPE, timeout=timeout, env=env)
         if p.returncode != 0:
             self.notes.append("driver failed: " + p.stderr.decode()[-2000:])
             return None
